@@ -1,4 +1,5 @@
 """C05 — view changes are justified, monotone and follow the specification (decision tables + who-writes)."""
+from . import common
 from engine import query as Q
 from engine.terms import show, subterms
 from engine.guards import Atom, Walker, field_path, chain
@@ -34,9 +35,11 @@ def rule_who_writes(ctx):
     ctx.floor(R, "fields with writers", sum(1 for s in found.values() if s), 5)
 
 
-def adoption_table(ctx, R, fn_name, field, param):
+def adoption_table(ctx, R, fn_name, field, param_ty):
     f = ctx.body(SM + "::" + fn_name)
     T = ctx.T(f)
+    pn = common.pnames(f, param_ty)
+    param = "/".join(sorted(pn)) or "<certificate argument>"
 
     def is_cur(t):
         return self_field(t, field)
@@ -48,8 +51,8 @@ def adoption_table(ctx, R, fn_name, field, param):
         ra, rb = ca[0], cb[0]
         a_cur = any(is_cur(x) for x in subterms(a))
         b_cur = any(is_cur(x) for x in subterms(b))
-        a_new = (not a_cur) and ra[0] in ("upvar", "param") and ra[-1] == param
-        b_new = (not b_cur) and rb[0] in ("upvar", "param") and rb[-1] == param
+        a_new = (not a_cur) and common.is_p(ra, pn)
+        b_new = (not b_cur) and common.is_p(rb, pn)
         if a_cur and b_new:
             return 1
         if b_cur and a_new:
@@ -59,7 +62,7 @@ def adoption_table(ctx, R, fn_name, field, param):
              Atom("cmp(cur.view,qc.view)", "cmp", m, ["<", "=", ">"], kills=[field])]
     W = Walker(ctx, f, atoms)
     writes = sm_field_assign_blocks(f, field)
-    good = sm_field_assign_blocks(f, field, lambda t: t[0] == "agg" and t[2] == "Some" and any(x[0] in ("upvar", "param") and x[-1] == param for x in subterms(t)), T)
+    good = sm_field_assign_blocks(f, field, lambda t: t[0] == "agg" and t[2] == "Some" and any(common.is_p(x, pn) for x in subterms(t)), T)
     ctx.floor(R, "writes of %s" % field, len(writes), 1)
     ctx.ob(R, "%s value" % field, set(writes) == set(good), "every write is %s := Some(<the certificate argument>)" % field if set(writes) == set(good) else
            "a write to %s stores something other than Some(%s)" % (field, param), f.loc())
@@ -84,8 +87,8 @@ def adoption_table(ctx, R, fn_name, field, param):
 def rule_strictly_newer(ctx):
     R = "C05.2"
     ctx.rule(R, "strictly-newer adoption (guard tables): high_commit_qc / high_timeout_qc := Some(qc) reachable exactly when none is held or the held one's view number is < qc's view number")
-    adoption_table(ctx, R, "process_commit_qc", "high_commit_qc", "qc")
-    adoption_table(ctx, R, "process_timeout_qc", "high_timeout_qc", "qc")
+    adoption_table(ctx, R, "process_commit_qc", "high_commit_qc", "CommitQC")
+    adoption_table(ctx, R, "process_timeout_qc", "high_timeout_qc", "TimeoutQC")
 
 
 def rule_stale_new_view(ctx):
@@ -131,7 +134,7 @@ def rule_wrong_leader(ctx):
     def m(a, b):
         def is_author(t):
             root, names = chain(t)
-            return names[-1:] == ["key"] and root[0] in ("upvar", "param")
+            return names[-1:] == ["key"] and common.is_p(root, common.pnames(f, "::Signed<"))
         def is_leader(t):
             return t[0] == "call" and t[1].endswith("Schedule::view_leader")
         if is_author(a) and is_leader(b):
@@ -175,7 +178,7 @@ def rule_self_justifying(ctx):
             if s["k"] == "assign" and s["p"]["l"] in Q.ret_locals(g) and s["r"]["k"] == "agg":
                 rets.append(T.rvalue(s["r"]))
     exp = {"Commit": "high_commit_qc", "Timeout": "high_timeout_qc"}
-    ok = len(rets) == 2
+    ok = set(r[2] for r in rets) == {"Commit", "Timeout"}
     for r in rets:
         fld = exp.get(r[2])
         inner = r[3][0][1] if r[3] else None
